@@ -17,6 +17,10 @@ CLAIMED = {
   text="Proof (all inputs, hence by induction all message sequences): the receive gate of ServerSession.handle as assertions at the dispatch point (legacy uninitialized => only lifecycle methods; new protocol => supported version and no removed method; discover needs metadata), exact error codes, ping always served; validateRequestMeta (new protocol only with version >= 2026-07-28 and decodable capabilities/clientInfo, errors are -32602); initialize/initialized transitions (duplicate/premature rejected with state unchanged, user handler not run). The check found defect F1 (setLevel/subscribe/unsubscribe/roots-list-changed bypassed the gate), reproduced on the real code and repaired by a fix: commit.",
   note="Trusted: stdlib.spec contracts (fmt.Errorf non-nil, slices.Contains, json decoders write only through their destination), extractRequestMeta modelled as heap-preserving (trusted), the interface contract of serverConnection.sessionUpdated (its only implementation is verified against it), user handlers havocked. Per-message sequential semantics: the lifecycle bit is the value read under ss.mu at the top of handle.",
   ref="DESIGN.md 10/C06"),
+ "C20": dict(
+  text="Proof (all inputs and, by induction over the representation invariant, all operation histories): dataList.appendData/removeFirst, MemoryEventStore.init/Open/Append/purge (three nested loop invariants)/SetMaxBytes/SessionClosed/After (both closures) and the constructor are verified against contracts stating: payloads are addressed by absolute index, eviction is oldest-first and never moves or alters a retained payload, Append assigns the next index, After returns exactly the retained suffix after the index (private copy) or an ErrEventsPurged-wrapping error (index arithmetic checked in 64-bit wrap-around semantics), bytes after Append exceed the budget by at most the new payload, closing a session removes exactly its streams; per-stream byte accounting size == sum of payload lengths; frames for every function. Found defect F7 (After index wrap-around), reproduced on the real code and repaired by a fix: commit.",
+  note="Trusted: sumlen axioms (non-negative, empty, split, point update), slices.Clone and fmt.Errorf/errors.Is contracts, the mk() trigger device, VC generator/go-ssa/solvers. Assumed as API preconditions: fewer than 2^63-1 appends per stream and byte totals below 2^63 (index/size arithmetic in range). Not yet decided: the global accounting equality nBytes == sum of stream sizes (hence unreachability of purge's 'no progress' panic), lock discipline of s.mu (safe under concurrent use) and the iterator's yield of a snapshot that the consumer cannot alter.",
+  ref="DESIGN.md 10/C20"),
 }
 
 NOT_YET = "contracts not completed yet (build in progress; see DESIGN.md section 12)"
